@@ -31,6 +31,8 @@ theorem reads_cs (c : Cfg) (x : CS) (h : x.Fits c) : Reads (readCS c) (Spec.cs c
   refine Reads.bind (reads_secExpect 4 (by omega)) ?_
   refine Reads.bind (reads_va c x.values hv) ?_
   refine Reads.bind (reads_int32 c x.propCnt hpi) ?_
+  have hn0 : ¬ (x.propCnt < 0) := by rw [hcnt]; omega
+  simp only [hn0, if_false]
   by_cases hpos : x.propCnt > 0
   · simp only [hpos, if_true]
     have hdiv : ¬ (x.propCnt > INT_MAX / 8) := by
